@@ -202,6 +202,41 @@ Definition nonvacuous_case : fcase :=
                          SPrint (CPure (EVar 4))] |}];
      centry := 0; args := [3; -7] |}.
 
+(* ---------------------------------------------------------------- elif ladders (order of the conditions) *)
+
+(* an if/elif ladder written as the list of its (condition, body) pairs in SOURCE order + what follows the last elif *)
+Fixpoint ladder (br : list (expr * block)) (tail : els) : els :=
+  match br with [] => tail | (c, b) :: r => EElif c b (ladder r tail) end.
+
+(* the elif conditions of a source `els` chain, in source order *)
+Fixpoint els_conds (el : els) : list expr :=
+  match el with EElif c _ r => c :: els_conds r | _ => [] end.
+
+(* the conditions met when walking the lowered chain `else { if c1 {..} else { if c2 {..} else .. } }` from the outside in,
+   i.e. in the order the generated Rust tests them *)
+Fixpoint chain_conds (el : iels) : list iexpr :=
+  match el with
+  | GElse (GCons (GIf c _ el') GNil) => c :: chain_conds el'
+  | _ => []
+  end.
+
+(* for one case: the elif conditions of every `if` of the entry function, lowered, are exactly the outside-in conditions of
+   the lowered chains (computed; used by the run to count the ladders the emitted-token tie covered) *)
+Fixpoint max_elifs_stmt (s : stmt) : nat :=
+  match s with
+  | SIf _ th el => Nat.max (length (els_conds el)) (Nat.max (max_elifs_block th) (max_elifs_els el))
+  | SWhile _ b | SFor _ _ b => max_elifs_block b
+  | _ => O
+  end
+with max_elifs_block (b : block) : nat :=
+  match b with BNil => O | BCons s r => Nat.max (max_elifs_stmt s) (max_elifs_block r) end
+with max_elifs_els (el : els) : nat :=
+  match el with
+  | ENone => O
+  | EElse b => max_elifs_block b
+  | EElif _ b r => Nat.max (max_elifs_block b) (max_elifs_els r)
+  end.
+
 (* ---------------------------------------------------------------- rendering *)
 
 Definition render_line (l : line) : Z * Z :=
